@@ -222,13 +222,13 @@ pub fn check(c: &Case, obs: &mut Obs) -> Verdict {
 }
 
 fn run(ctx: &Ctx) {
-    if !ctx.run_prop("plain_shuffled", RULE, ctx.cases(1200, 100_000), strat_plain, check) {
+    if !ctx.run_prop("plain_shuffled", RULE, ctx.cases(1200, 300_000), strat_plain, check) {
         return;
     }
-    if !ctx.run_prop("with_splits", RULE, ctx.cases(800, 100_000), strat_split, check) {
+    if !ctx.run_prop("with_splits", RULE, ctx.cases(800, 300_000), strat_split, check) {
         return;
     }
-    ctx.run_prop("with_asset_events", RULE, ctx.cases(600, 60_000), strat_events, check);
+    ctx.run_prop("with_asset_events", RULE, ctx.cases(600, 180_000), strat_events, check);
 }
 
 fn replay(name: &str, case: &Value) -> Option<Verdict> {
